@@ -192,10 +192,12 @@ func makeStructInfo(name string, names []string, t reflect.Type) (info structInf
 // ReadStruct reads struct type.
 func (dec *Decoder) ReadStruct(t reflect.Type) {
 	name := dec.ReadSafeString()
-	count := dec.ReadInt()
-	names := make([]string, count)
-	for i := 0; i < count; i++ {
-		dec.decodeString(stringType, dec.NextByte(), &names[i])
+	count := dec.readCount()
+	names := make([]string, 0, dec.prealloc(count))
+	for i := 0; i < count && dec.Error == nil; i++ {
+		var fieldName string
+		dec.decodeString(stringType, dec.NextByte(), &fieldName)
+		names = append(names, fieldName)
 	}
 	dec.Skip()
 	dec.ref = append(dec.ref, makeStructInfo(name, names, t))
